@@ -145,6 +145,36 @@ def fam_solid(ctx, rng):
         ctx.violation(kind + ':interior_point', 'known interior point reported outside', desc)
 
 
+def fam_factory(ctx, rng):
+    """polyfaces as the factories make them (from_offset_face with and without holes, from_box): their own edge lists - written by the
+    factory, not counted - agree with the independent incidence count of their face_indices"""
+    frame = G.rational_frame(rng); o = G.rpt3(rng, 100.0)
+    emb = lambda p, h=0.0: P3(tuple(o[i] + p[0] * frame[0][i] + p[1] * frame[1][i] + h * frame[2][i] for i in range(3)))
+    which = rng.choice(['offset', 'offset_holes', 'offset_holes', 'box'])
+    if which == 'box':
+        pf = Polyface3D.from_box(G.dy(rng.uniform(1, 9)), G.dy(rng.uniform(1, 9)), G.dy(rng.uniform(1, 9)), Bd.plane(rng))
+        desc = {'factory': 'from_box', 'polyface': pf.to_dict()}
+    else:
+        b = G.star_polygon(rng, n=rng.randint(3, 8), R=10.0, center=(0.0, 0.0))
+        hs = G.holes_in(rng, b, rng.choice([1, 2, 3])) if which == 'offset_holes' else []
+        base = Face3D([emb(p) for p in b], holes=[[emb(p) for p in x] for x in hs] or None)
+        h = G.dy(rng.uniform(1, 9))
+        pf = Polyface3D.from_offset_face(base, h)
+        desc = {'factory': 'from_offset_face', 'face': base.to_dict(), 'height': h}
+        which = 'offset_holes' if hs else 'offset'
+    kind = 'factory.' + which
+    ctx.count(kind, key=(len(pf.vertices), len(pf.faces)), sample={'factory': which, 'faces': len(pf.faces)}, nontrivial=True)
+    if not pf.is_solid:
+        ctx.violation(kind + ':not_solid', 'factory solid reported as not solid', desc); return
+    if not check_edges(ctx, kind, pf, pf.face_indices, desc):
+        return
+    # every reported edge segment joins the two vertices its indices name
+    for (i, j), sg in zip(pf.edge_indices, pf.edges):
+        a, b = pf.vertices[i], pf.vertices[j]
+        if min(sg.p1.distance_to_point(a) + sg.p2.distance_to_point(b), sg.p1.distance_to_point(b) + sg.p2.distance_to_point(a)) > 1e-9 * 200:
+            ctx.violation(kind + ':edge_geometry', 'edge %r does not join its two vertices' % ((i, j),), desc); return
+
+
 def fam_concave_caps(ctx, rng):
     """a prism over a concave base, one cap given wound inward and started at EVERY one of its vertices in turn (reflex corners
     included): the re-oriented solid is outward and has the enclosed volume"""
@@ -221,7 +251,7 @@ def fam_mesh(ctx, rng):
     check_edges(ctx, 'mesh', m, [[tuple(face)] for face in m.faces], desc)
 
 
-FAMILIES = [(fam_concave_caps, 8), (fam_solid, 60), (fam_open, 40), (fam_mesh, 100)]
+FAMILIES = [(fam_factory, 30), (fam_concave_caps, 8), (fam_solid, 60), (fam_open, 40), (fam_mesh, 100)]
 
 
 def explore(ctx):
@@ -262,6 +292,46 @@ def correspond(ctx):
         meta.append(('_compute_edge_info', faces))
     res = core.run_cases('C07_corr', ['EdgeInfo'], '', cases,
                          header='From Coq Require Import ZArith List Bool.\nImport ListNotations.\nFrom LBG Require Import EdgeInfo.\n')
+    ctx.corr_cases += len(cases)
+    for ok, m in zip(res, meta):
+        if ok is not True:
+            ctx.corr_fail.append({'function': m[0], 'input': repr(m[1:]),
+                                  'result': 'model and implementation differ' if ok is False else 'model evaluation failed'})
+    volume_cases(ctx)
+
+
+def model_loops(face):
+    """the loops the Volume.v model takes for a face: boundary as stored, then the holes wound against it"""
+    b = [X.fpt(p) for p in face.boundary]
+    nb = X.newell(b)
+    loops = [b]
+    for h in face.holes or []:
+        hp = [X.fpt(p) for p in h]
+        if X.dot(X.newell(hp), nb) > 0:
+            hp = hp[::-1]
+        loops.append(hp)
+    return loops
+
+
+def volume_cases(ctx):
+    """Volume.v (hand model: sum of p0 . area_vector / 6) vs Polyface3D.volume on solids whose faces were shuffled, flipped and
+    re-started before construction (so get_outward_faces did the orienting); agreement to 1e-9 relative"""
+    rng = ctx.rng
+    cases, meta = [], []
+    for _ in range(ctx.n(40, 300)):
+        fam, faces, _ = solid_faces(rng)
+        pert, flips = perturb(rng, faces)
+        try:
+            pf = Polyface3D.from_faces(pert, TOL)
+        except Exception:
+            continue
+        v = pf.volume
+        fl = core.coq_list([core.coq_list([core.coq_list(['mkV3 %s %s %s' % (q(a), q(b), q(c)) for a, b, c in lp]) for lp in model_loops(f)])
+                            for f in pf.faces])
+        eps = Fraction(1, 10 ** 9) * max(1, abs(F(v)))
+        cases.append('Qle_bool (Qabs (volume %s - %s)) %s' % (fl, q(v), q(eps)))
+        meta.append(('Polyface3D.volume', fam, len(faces), flips, [f.to_dict() for f in pert]))
+    res = core.run_cases('C07_vol', ['Base', 'QGeom', 'Volume'], '', cases, chunk=10)
     ctx.corr_cases += len(cases)
     for ok, m in zip(res, meta):
         if ok is not True:
